@@ -1,4 +1,5 @@
 import Driver.OpsApply
+import Driver.OpsCase
 /-
   rmodel: the executable side of the Lean model.  One request per line on stdin, one canonical
   result line on stdout; the same lines go to the Rust harness and the two streams are diffed.
@@ -7,6 +8,7 @@ import Driver.OpsApply
 
 def handlers : List (List String → Option String) :=
   [ OpsApply.dispatch
+  , OpsCase.dispatch
   ]
 
 def dispatch (fields : List String) : String :=
